@@ -135,13 +135,15 @@ def run_check(mod, tier, seed, workers=None, only_case=None):
         _winit(mod.__name__)
         results_iter = (_wrun(c) for c in chunks)
     crashes = []
-    budget = getattr(mod, 'time_budget', lambda tier: None)(tier)
+    obs_by_idx = {}
     try:
         for res in results_iter:
             for r in res:
                 ctx.evaluations += r.get('evals', 1)
                 ctx.transitions += r.get('transitions', 1)
                 ctx.obs.add(r.get('obs'))
+                if r['idx'] < 200:
+                    obs_by_idx[r['idx']] = str(r.get('obs'))
                 for s in r.get('states', ()):
                     ctx.states.add(s)
                 if r.get('nontrivial'):
@@ -170,6 +172,21 @@ def run_check(mod, tier, seed, workers=None, only_case=None):
     if crashes:
         sys.stderr.write('HARNESS CRASH in %d case(s); first:\ncase=%s\n%s\n' % (len(crashes), json.dumps(crashes[0][0], default=repr)[:1000], crashes[0][1]))
         raise HarnessError('harness crashed')
+    # owned nondeterminism is checked, not assumed: the first light cases are executed once more in this process and must give the
+    # same observation (a mismatch is a harness error, never a verdict)
+    if only_case is None and n:
+        heavy_f = getattr(mod, 'heavy', None)
+        again = [(i, c) for i, c in indexed if not (heavy_f and heavy_f(c))][:int(os.environ.get('VERIF_RECHECK', '25'))]
+        _winit(mod.__name__)
+        mismatches = []
+        for i, c in again:
+            r2 = mod.run_case(c)
+            if obs_by_idx.get(i) is not None and str(r2.get('obs')) != obs_by_idx[i]:
+                mismatches.append((i, obs_by_idx[i][:200], str(r2.get('obs'))[:200]))
+        ctx.notes['determinism_recheck'] = {'cases_re_executed': len(again), 'mismatches': len(mismatches)}
+        if mismatches:
+            sys.stderr.write('re-execution of case %d gave another observation:\n  first : %s\n  second: %s\n' % mismatches[0])
+            raise HarnessError('re-executed cases gave different observations: nondeterminism not owned')
     if hasattr(mod, 'finalize') and only_case is None:
         mod.finalize(ctx)
     return finish(ctx, cases, time.time() - t0, only_case is not None)
